@@ -152,3 +152,7 @@ def run(ctx):
     PANTR.attach(ctx)
     from vf.props import ZEROFPR
     ZEROFPR.attach(ctx)
+    # end-to-end: the composed ALM/PANOC model (AlmPanoc.v; C01_alm_panoc_converged_is_kkt in Properties_C01.v) vs the real stack on whole
+    # ALM runs, with this property's KKT oracle on every composed run that ends Converged
+    from vf.props import ALMPANOC
+    ALMPANOC.attach(ctx, extra_oracle=oracle)
